@@ -583,9 +583,9 @@ void splinetable<Alloc>::write_fits_core(fitsfile* fits) const{
 	 * Note that the strides will not need to be written explicitly,
 	 * as they can be reconstructed from naxes.
 	 */
+	uint64_t nelements=1;
 	{
 		std::unique_ptr<long[]> naxes(new long[ndim]);
-		uint64_t nelements=1;
 		for(uint32_t i=0; i<ndim; i++) {
 			naxes[i] = this->naxes[ndim - i - 1];
 			nelements *= naxes[i];
@@ -593,16 +593,13 @@ void splinetable<Alloc>::write_fits_core(fitsfile* fits) const{
 		fits_create_img(fits, FLOAT_IMG, ndim, naxes.get(), &error);
 		if (error != 0)
 			throw std::runtime_error("Failed to create FITS image for spline coefficients");
-	
-		std::unique_ptr<long[]> fpixel(new long[ndim]);
-		std::fill_n(fpixel.get(),ndim,1L);
-		define_hdu();
-		fits_write_pix(fits, TFLOAT, fpixel.get(), nelements, &coefficients[0], &error);
-		if (error != 0)
-			throw std::runtime_error("Failed to write coefficients to FITS image");
 	}
 	
-	// Write out header information
+	// Write out header information. This is done before the coefficients are
+	// written: if the header outgrows its first block afterwards, cfitsio has
+	// to move the data which are already in the file, and during that move an
+	// interrupted or failing write goes unnoticed and can leave a file which
+	// loads as a different table.
 	const char typeString[]="Spline Coefficient Table";
 	fits_write_key(fits, TSTRING, "TYPE", (void*)&typeString, NULL, &error);
 	if (error != 0)
@@ -639,6 +636,15 @@ void splinetable<Alloc>::write_fits_core(fitsfile* fits) const{
 			throw std::runtime_error("Failed to write aux entry");
 	}
 	// done with headers
+	
+	{
+		std::unique_ptr<long[]> fpixel(new long[ndim]);
+		std::fill_n(fpixel.get(),ndim,1L);
+		define_hdu();
+		fits_write_pix(fits, TFLOAT, fpixel.get(), nelements, &coefficients[0], &error);
+		if (error != 0)
+			throw std::runtime_error("Failed to write coefficients to FITS image");
+	}
 	
 	// Write knot vectors
 	for(uint32_t i=0; i<ndim; i++) {
